@@ -1,3 +1,4 @@
 import Cicada.Thm.C12glob
 import Cicada.Thm.C12range
+import Cicada.Thm.C12two
 /-! every theorem file of property C12 (the module audited by `./check C12`) -/
